@@ -304,7 +304,7 @@ def _norm_slot_and_round_type(ctx):
                    '%s uses norm_float: %s; %s uses norm_double: %s (siblings must both honour their flag)' % (ff.name, fu, df.name, du), None)
 
     ctx.rule('DOUBLE-PATH', 'in every conversion kernel whose source is `const double *` (d2…_array and the double64.c readers) no sample value is narrowed to float on its way to the '
-             'integer result (no implicit FloatingCast double -> float of a non-constant); frozen exception: the PEAK scan, whose result is stored as float by the chunk format', floor=30)
+             'integer result (no implicit FloatingCast double -> float of a non-constant); this includes the PEAK scan (the exception once frozen for it hid 0c5fa1b: a maximum kept in a float names the wrong frame)', floor=30)
     ndp = 0
     for f in sorted(prog.lib_fns(), key=lambda f: (f.file, f.line)):
         if not any('const double *' in q['t'] for q in f.params):
@@ -315,9 +315,6 @@ def _norm_slot_and_round_type(ctx):
         casts = [n for n in f.walk() if n.get('ck') == 'FloatingCast' and n.get('t') == 'float' and f.N[n['kids'][0]].get('t') == 'double'
                  and f.unwrap(f.N[n['kids'][0]]).get('fv') is None and f.unwrap(f.N[n['kids'][0]]).get('v') is None]
         ndp += 1
-        if f.name == 'double64_peak_update':
-            ctx.ob('DOUBLE-PATH', f.name, True, f.loc(f.body), 'frozen exception: PEAK values are 32-bit floats in the chunk format (%d narrowing(s))' % len(casts), None)
-            continue
         ctx.ob('DOUBLE-PATH', f.name, not casts, f.loc(casts[0]) if casts else f.loc(f.body), 'no narrowing of the double sample' if not casts else
                '`%s` is narrowed to float: the low bits of the sample are lost before rounding' % f.s(f.N[casts[0]['kids'][0]])[:50], None)
     ctx.require(ndp >= 30, 'only %d double-source kernels found' % ndp)
